@@ -415,6 +415,28 @@ func tinyGrids() []*Grid {
 	return tinyGridsCache
 }
 
+// oddGrids: ROUND synthetic quadtree sets whose deepest pixel measures an ODD number of 1e-10 units (2^-10 and 2^-11
+// units = 9765625 and 4882812.5 -> the latter is not used; 2^-10 only, at deepest ids 2 and 3), so that "half a pixel"
+// truncates at the deepest level and the order of halving and scaling matters at coarser ones.  Decimal, valid polygons only.
+var oddGridsCache []*Grid
+
+func oddGrids() []*Grid {
+	if oddGridsCache == nil {
+		for _, spec := range []struct {
+			d    int
+			cell float64
+		}{{2, 0.015625}, {3, 0.015625}} {
+			g, err := newSyntheticGrid(spec.d, spec.cell, 0, 0)
+			if err != nil {
+				panic(err)
+			}
+			g.Dyadic = false
+			oddGridsCache = append(oddGridsCache, g)
+		}
+	}
+	return oddGridsCache
+}
+
 // genPinched: a shell of two lobes joined by a neck narrower than a pixel (the neck collapses onto one pixel
 // centre, so the snapped shell touches itself there and is split), optionally with a hole in one lobe that has a
 // vertex inside the neck's pixel.  Horizontal or vertical; sixteenth-pixel lattice; rejection sampled for validity.
